@@ -283,6 +283,31 @@ def main(tier, seed):
                     alone = {"worker_error": repr(e)}
             pa = ((alone.get("result") or {}).get("error") or {}) if isinstance(alone.get("result"), dict) else {}
             ps = ((out.get("result") or {}).get("error") or {}) if isinstance(out.get("result"), dict) else {}
+            def _spurious(e):
+                # the evaluation child has one second of wall-clock time: a text without an endless loop or a sleep
+                # that is reported as timed out was starved by the machine's load
+                return isinstance(e, dict) and "Timeout during evaluating constexpr" in str(e.get("description", "")) \
+                    and "while True" not in x and "sleep" not in x
+            tries = 0
+            while (_spurious(pa) or _spurious(ps)) and tries < 3:
+                tries += 1
+                run.count("inconclusive_constexpr_timeouts")
+                time.sleep(1.0)
+                with ctx.Pool(1) as poolr:
+                    try:
+                        outs_r = poolr.apply_async(probe_sequence, ([(y, impl.vec(append_version=False)) for y in srcs[:pos + 1]],)).get(timeout=LIMIT_S * 3 * (pos + 1))
+                        out = outs_r[pos]
+                    except Exception:  # noqa
+                        break
+                with ctx.Pool(1) as poola:
+                    try:
+                        alone = poola.apply_async(probe, ((x, impl.vec(append_version=False)),)).get(timeout=LIMIT_S * 3)
+                    except Exception:  # noqa
+                        break
+                pa = ((alone.get("result") or {}).get("error") or {}) if isinstance(alone.get("result"), dict) else {}
+                ps = ((out.get("result") or {}).get("error") or {}) if isinstance(out.get("result"), dict) else {}
+            if _spurious(pa) or _spurious(ps):
+                continue
             if isinstance(pa, dict) and isinstance(ps, dict) and (pa.get("line"), pa.get("column")) != (ps.get("line"), ps.get("column")):
                 run.violation("the verdict of a text depends on what was compiled before it in the same process",
                               {"kind": "sequence", "failure": "stale_verdict", "sequence": name, "position_in_sequence": pos, "source": x,
